@@ -152,8 +152,10 @@ def conforms(spec: Spec, r, _depth=0, closed=False) -> tuple[bool, str]:
             ok = isinstance(r, pathlib.Path)
         else:
             ok = isinstance(r, cls)
-        if closed and ok and spec.info["name"] in ("int", "date", "str", "float"):
-            ok = type(r) is cls  # bool is not the int member's own value, datetime not the date member's
+        if closed and ok:
+            # ownership: the member's own class exactly (bool is not the int member's value, datetime not the date
+            # member's, a concrete PosixPath not the PurePosixPath member's)
+            ok = type(r) is (type(pathlib.Path()) if spec.info["name"] == "Path" else cls) or spec.info["name"] == "Pattern"
         return ok, "" if ok else f"<{type(r).__name__} is not {spec.info['name']}>"
     if k == "literal":
         ok = any(type(m) is type(r) and m == r for m in spec.info["members"])
